@@ -297,6 +297,16 @@ def gen_ops_factory(meta, ctx):
                                          f'.{key}={val}', f'P{key[1:]}={val}', f'{key}={val}']))
         ops.append(ctx.op(top, fl, 'other', [f'{key}={val}']))
         ops.append(ctx.op(top, fl, '', [f'{key[1:]}={val}', f'{key}={val}']))
+        # a first key component that properly extends (or is a proper prefix of) the requested
+        # prefix is a different prefix: solverx.… / solver2=… / solver_x.… / solve.… with `solver`
+        # (also with keys / values that would be rejected if the option were applied)
+        sk = 'solver' + key[1:]
+        ops.append(ctx.op(top, fl, 'solver', [f'solverx{key[1:]}={val}', f'{sk}={val}', f'solver2={val}',
+                                              f'solverx.nokey={val}', f'solverx{key[1:]}=\x01bad',
+                                              f'solve{key[1:]}={val}', f'solver_x{key[1:]}={val}',
+                                              f'solver={val}x' if path else f'solver.sub={val}',
+                                              f'{sk}={val}']))
+        ops.append(ctx.op(top, fl, 'solverx', [f'{sk}={val}', f'solverx{key[1:]}={val}', f'solverxx{key[1:]}={val}']))
         return ops
 
     def gen_ops(rng, n):
@@ -649,19 +659,23 @@ def main(argv):
     return C.standard_check(
         'C18', argv,
         gen_scripts=['gen_c18.py'], modules=['Alpaqa.Props.C18'], driver='drv_c18',
-        extra_sources=['Alpaqa/Model/C18.lean', 'Alpaqa/Gen/C18.lean', 'Driver/C18.lean'],
+        extra_sources=['Alpaqa/Model/C18.lean', 'Alpaqa/Gen/C18.lean', 'Alpaqa/Proofs/C18.lean',
+                       'Driver/C18.lean'],
         harness_name='c18', harness_sources=sources, harness_flags=flags,
         gen_ops=gen_ops, monitor=monitor, nontrivial=nontrivial,
         n_quick=1, n_thorough=240, extra_stage=extra_stage, search_factor=2,
         trusted_base=[
-            'Lean 4.33 kernel (axioms: propext, Classical.choice, Quot.sound); Mathlib only in Props/C18.lean',
+            'Lean 4.33 kernel (axioms: propext, Classical.choice, Quot.sound); Mathlib only in Props/C18.lean '
+            '(helper lemmas in Proofs/C18.lean are core Lean)',
             'gen/gen_c18.py (regex/brace-matching translator: structs.ipp tables, struct and enum '
             'definitions in the headers, params.cpp instantiation list and bool literals, '
             'duration-parse.hpp unit table) and the macro-shape check of structs.hpp',
             'hand model Alpaqa/Model/C18.lean (split_key, set_params, table dispatch, leaf setters, '
             'parse_duration, chrono::round) tied by exact correspondence on the explored option strings',
             'std::from_chars(double) is an oracle: checks/c18.py::from_chars_real states its contract and '
-            'feeds the driver; it is exercised against libstdc++ by the correspondence, never proved',
+            'feeds the driver; it is exercised against libstdc++ by the correspondence, never proved; the '
+            'budget-sufficiency theorems assume of it only that a successful parse consumes >= 1 character '
+            '(FromCharsConsumes, [charconv.from.chars])',
             'std::map lookup = first entry with an equal key; std::chrono::round / duration_cast as in '
             'libstdc++ 12; int64 conversion of out-of-range doubles is UB in C++ (driver mimics x86-64)',
         ],
